@@ -49,7 +49,7 @@ func c04Key(o *eng.Outcome, proj eng.ProjOpts, stableTX map[string]bool) string 
 
 // C04: a transaction's outcome is a function of configuration and request only.
 func C04(run *vf.Run) {
-	run.Rule = "Engine.tla makes the runtime's iteration order an explicit nondeterministic choice at every rule evaluation; TLC enumerates the cache family (rules sharing transformation prefixes over repeated names), the acts family (counters) and the select family, in every order, and the harness checks on the specification that the C04 projection (interruption, fired set, per-rule multiset of match triples, order-independent TX counters) of all allowed outcomes of a scenario is one value. Each scenario is then run on the real library R times on fresh WAFs and on one long-lived WAF (transaction pool reuse), under natural map order and under imposed orders (sorted, reverse, rotate-per-walk, shuffle) through the verif hook; every run's projection must equal the specification's single value. Non-trivial = some rule fires"
+	run.Rule = "Engine.tla makes the runtime's iteration order an explicit nondeterministic choice at every rule evaluation; TLC enumerates the cache family (rules sharing transformation prefixes over repeated names), the acts family (counters), the flow family (skip / skipAfter / allow / deny state that must not survive into the next transaction of a long-lived WAF) and the select family, in every order, and the harness checks on the specification that the C04 projection (interruption, fired set, per-rule multiset of match triples, order-independent TX counters) of all allowed outcomes of a scenario is one value. Each scenario is then run on the real library R times on fresh WAFs and on one long-lived WAF (transaction pool reuse), under natural map order and under imposed orders (sorted, reverse, rotate-per-walk, shuffle) through the verif hook; every run's projection must equal the specification's single value. Non-trivial = some rule fires"
 	run.Exhaustive = true
 	run.Assume("TLC 1.8.0 explores the bounded instances completely")
 	run.Assume("the iteration-order hook permutes exactly what the Go runtime may permute (order of map keys)")
@@ -61,12 +61,14 @@ func C04(run *vf.Run) {
 	fams := []fam{
 		{"cache", cacheCfg(3, 0, "byValue", true), eng.ProjOpts{}},
 		{"acts", engineCfg("acts", 2, 0, "{1, 2}", `{"On"}`), eng.ProjOpts{}},
+		{"flow", engineCfg("flow", 1, 1, "{1, 2}", `{"On"}`), eng.ProjOpts{}},
 	}
 	if run.Thorough() {
 		fams = []fam{
 			{"cache", cacheCfg(4, 1, "byValue", true), eng.ProjOpts{}},
 			{"acts", engineCfg("acts", 3, 1, "{1, 2}", `{"On"}`), eng.ProjOpts{}},
 			{"select", engineCfg("select", 3, 0, "{2}", `{"On"}`), eng.ProjOpts{FoldMDKeys: true}},
+			{"flow", engineCfg("flow", 2, 1, "{1, 2, 5}", `{"On"}`), eng.ProjOpts{}},
 		}
 	}
 	reps := vf.Pick(run, 2, 6)
